@@ -6,6 +6,7 @@ import (
 	"flag"
 	"fmt"
 	"os"
+	"runtime/pprof"
 	"sync"
 	"sync/atomic"
 	"time"
@@ -143,5 +144,103 @@ func notifyReplay(args []string) int {
 	if nmism > 0 {
 		return 1
 	}
+	return 0
+}
+
+// notifyConc records concurrent runs (writers, publishers, subscribers, live fences, webhooks with a
+// failing endpoint) for spec/NotifyTrace.tla; it judges nothing.
+func notifyConc(args []string) int {
+	fs := flag.NewFlagSet("notify-conc", flag.ExitOnError)
+	out := fs.String("out", "trace.ndjson", "output, one run per line")
+	runs := fs.Int("runs", 8, "number of runs")
+	par := fs.Int("par", 4, "parallel runs")
+	seed := fs.Int64("seed", 1, "seed")
+	writers := fs.Int("writers", 4, "writer connections per run")
+	ops := fs.Int("ops", 30, "operations per writer connection")
+	subs := fs.Int("subs", 4, "subscriber connections per run")
+	pace := fs.Duration("pace", 8*time.Millisecond, "mean pause between two operations of a writer connection")
+	faults := fs.Bool("faults", true, "the endpoint of one webhook fails in random windows")
+	dir := fs.String("dir", "", "scratch directory for the servers' data")
+	patience := fs.Duration("patience", 90*time.Second, "patience for replies and end sentinels")
+	fs.Parse(args)
+	fail := func(err error) int {
+		fmt.Fprintln(os.Stderr, "harness error:", err)
+		return 2
+	}
+	if pf := os.Getenv("NOTIFY_PROF"); pf != "" {
+		f, _ := os.Create(pf)
+		pprof.StartCPUProfile(f)
+		defer pprof.StopCPUProfile()
+	}
+	if *dir == "" {
+		d, err := os.MkdirTemp(".", "notify-conc-")
+		if err != nil {
+			return fail(err)
+		}
+		*dir = d
+	}
+	defer os.RemoveAll(*dir)
+	of, err := os.Create(*out)
+	if err != nil {
+		return fail(err)
+	}
+	defer of.Close()
+	w := bufio.NewWriter(of)
+	defer w.Flush()
+	enc := json.NewEncoder(w)
+	enc.SetEscapeHTML(false)
+	var mu sync.Mutex
+	var firstErr error
+	info := map[string]int{}
+	written, slow := 0, 0
+	jobs := make(chan int, *runs)
+	for i := 0; i < *runs; i++ {
+		jobs <- i
+	}
+	close(jobs)
+	var wg sync.WaitGroup
+	for p := 0; p < *par; p++ {
+		wg.Add(1)
+		go func() {
+			defer wg.Done()
+			for i := range jobs {
+				mu.Lock()
+				stop := firstErr != nil
+				mu.Unlock()
+				if stop {
+					continue
+				}
+				tr, err := notify.RunConc(i, notify.ConcOptions{Dir: *dir, Seed: *seed*100003 + int64(i), Writers: *writers, Ops: *ops,
+					Subs: *subs, Faults: *faults, Patience: *patience, Pace: *pace})
+				mu.Lock()
+				if err != nil {
+					if _, ok := err.(notify.ErrSlow); ok {
+						slow++
+						fmt.Fprintln(os.Stderr, "run", i, "not recorded:", err)
+					} else if firstErr == nil {
+						firstErr = err
+					}
+				} else {
+					enc.Encode(tr)
+					written++
+					for k, v := range tr.Info {
+						if k == "max_stall_ms" {
+							if v > info[k] {
+								info[k] = v
+							}
+						} else {
+							info[k] += v
+						}
+					}
+				}
+				mu.Unlock()
+			}
+		}()
+	}
+	wg.Wait()
+	if firstErr != nil {
+		return fail(firstErr)
+	}
+	emit(map[string]interface{}{"runs": written, "not_recorded_slow": slow, "info": info})
 	return 0
 }
